@@ -19,8 +19,7 @@ use std::collections::HashMap;
 use std::hash::{BuildHasher, RandomState};
 use std::io::{BufRead, BufReader, Read, Write};
 use std::sync::atomic::Ordering;
-use std::sync::mpsc::{channel, Receiver, Sender};
-use std::sync::Arc;
+use std::sync::{Arc, Condvar, Mutex};
 use std::thread::JoinHandle;
 
 use crate::prng::Rng;
@@ -32,15 +31,59 @@ enum Cmd {
     Quit,
 }
 
-enum Reply {
-    Spawned(u64, String),
-    Expanded(u64, String),
-    Fragged(usize),
+/// Hand-over point between the host main loop and one worker. Deliberately NOT a channel: std's
+/// mpsc allocates and frees queue blocks from whichever thread gets there first, and memory that one
+/// thread allocates and the other frees moves between the two threads' malloc caches depending on
+/// timing — which would make heap addresses inside the worker (a nondeterminism source the
+/// simulator is supposed to own) depend on the OS scheduler. A mutex/condvar pair allocates
+/// nothing after construction, and the worker writes its reply to stdout itself, so no block of
+/// memory allocated by a worker is ever freed by another thread (and vice versa).
+struct Slot {
+    cmd: Mutex<Option<Cmd>>,
+    cmd_cv: Condvar,
+    done: Mutex<bool>,
+    done_cv: Condvar,
+}
+
+impl Slot {
+    fn new() -> Slot {
+        Slot { cmd: Mutex::new(None), cmd_cv: Condvar::new(), done: Mutex::new(false), done_cv: Condvar::new() }
+    }
+
+    /// main: hand a command to the worker and wait until it has been served
+    fn call(&self, c: Cmd) {
+        *self.done.lock().unwrap() = false;
+        *self.cmd.lock().unwrap() = Some(c);
+        self.cmd_cv.notify_one();
+        self.wait_done();
+    }
+
+    fn wait_done(&self) {
+        let mut d = self.done.lock().unwrap();
+        while !*d {
+            d = self.done_cv.wait(d).unwrap();
+        }
+    }
+
+    /// worker: block until a command arrives
+    fn take(&self) -> Cmd {
+        let mut c = self.cmd.lock().unwrap();
+        loop {
+            if let Some(cmd) = c.take() {
+                return cmd;
+            }
+            c = self.cmd_cv.wait(c).unwrap();
+        }
+    }
+
+    fn finish(&self) {
+        *self.done.lock().unwrap() = true;
+        self.done_cv.notify_one();
+    }
 }
 
 struct Worker {
-    tx: Sender<Cmd>,
-    rx: Receiver<Reply>,
+    slot: Arc<Slot>,
     handle: JoinHandle<()>,
 }
 
@@ -81,19 +124,38 @@ pub fn expand_once(text: &str) -> String {
     }
 }
 
-fn worker_main(rx: Receiver<Cmd>, tx: Sender<Reply>) {
+fn reply(bytes: &[u8]) {
+    let out = std::io::stdout();
+    let mut w = out.lock();
+    let _ = w.write_all(bytes);
+    let _ = w.flush();
+}
+
+fn worker_main(slot: Arc<Slot>) {
     seams::IS_WORKER.with(|c| c.set(true));
     // first RandomState on this thread: draws this worker's key pair through `getrandom`
     let fp = keyfp();
     let cn = canary();
-    let _ = tx.send(Reply::Spawned(fp, cn));
+    reply(format!("ok {fp:016x} {cn}\n").as_bytes());
+    slot.finish();
     let mut live: Vec<Vec<u8>> = Vec::new();
-    while let Ok(cmd) = rx.recv() {
-        match cmd {
+    loop {
+        match slot.take() {
             Cmd::Expand(text) => {
                 let fp = keyfp();
-                let out = expand_once(&text);
-                let _ = tx.send(Reply::Expanded(fp, out));
+                let mut out = expand_once(&text);
+                drop(text);
+                let head = format!("R {fp:016x} {}\n", out.len());
+                out.push('\n');
+                let o = std::io::stdout();
+                let mut w = o.lock();
+                let _ = w.write_all(head.as_bytes());
+                let _ = w.write_all(out.as_bytes());
+                let _ = w.flush();
+                drop(w);
+                drop(out);
+                drop(head);
+                slot.finish();
             },
             Cmd::Frag(seed, n) => {
                 // allocate n blocks of PRNG sizes, free a PRNG subset, keep the rest alive on this
@@ -118,11 +180,14 @@ fn worker_main(rx: Receiver<Cmd>, tx: Sender<Reply>) {
                 if live.len() > 4096 {
                     live.drain(0..2048);
                 }
-                let _ = tx.send(Reply::Fragged(live.len()));
+                reply(format!("ok {}\n", live.len()).as_bytes());
+                slot.finish();
             },
             Cmd::Quit => break,
         }
     }
+    drop(live);
+    slot.finish();
 }
 
 fn read_payload<R: BufRead>(r: &mut R, len: usize) -> std::io::Result<String> {
@@ -132,15 +197,42 @@ fn read_payload<R: BufRead>(r: &mut R, len: usize) -> std::io::Result<String> {
     String::from_utf8(buf).map_err(|_| std::io::Error::new(std::io::ErrorKind::InvalidData, "utf8"))
 }
 
+extern "C" {
+    fn mmap(addr: *mut u8, len: usize, prot: i32, flags: i32, fd: i32, off: i64) -> *mut u8;
+}
+
+/// Simulated address-space layout: with the kernel's randomisation off, the scheduler decides how
+/// far the mmap area (thread stacks, malloc arenas of worker threads) and the main heap are shifted.
+fn apply_address_slide() -> (usize, usize) {
+    let get = |k: &str| std::env::var(k).ok().and_then(|v| v.parse::<usize>().ok()).unwrap_or(0);
+    let (m, b) = (get("VERIF_SLIDE_MMAP"), get("VERIF_SLIDE_BRK"));
+    if m > 0 {
+        // PROT_NONE | MAP_PRIVATE|MAP_ANONYMOUS|MAP_NORESERVE: address space only, no memory
+        unsafe {
+            mmap(std::ptr::null_mut(), m, 0, 0x02 | 0x20 | 0x4000, -1, 0);
+        }
+    }
+    if b > 0 {
+        let mut left = b;
+        while left > 0 {
+            let n = left.min(64 * 1024);
+            std::mem::forget(Vec::<u8>::with_capacity(n));
+            left -= n;
+        }
+    }
+    (m, b)
+}
+
 pub fn host_main() -> i32 {
     std::panic::set_hook(Box::new(|_| {}));
+    apply_address_slide();
     let stdin = std::io::stdin();
     let mut r = BufReader::new(stdin.lock());
-    let stdout = std::io::stdout();
-    let mut w = stdout.lock();
     let mut inputs: BTreeMap<u64, Arc<String>> = BTreeMap::new();
     let mut workers: BTreeMap<u64, Worker> = BTreeMap::new();
     let mut line = String::new();
+    // the main loop never holds the stdout lock across a hand-over: workers write their own replies
+    let say = |s: &str| reply(s.as_bytes());
     loop {
         line.clear();
         match r.read_line(&mut line) {
@@ -149,10 +241,6 @@ pub fn host_main() -> i32 {
             Err(_) => return 3,
         }
         let parts: Vec<&str> = line.trim_end().split(' ').collect();
-        let bad = |w: &mut dyn Write, why: &str| {
-            let _ = writeln!(w, "err {why}");
-            let _ = w.flush();
-        };
         match parts[0] {
             "I" if parts.len() == 3 => {
                 let id: u64 = parts[1].parse().unwrap_or(0);
@@ -160,7 +248,7 @@ pub fn host_main() -> i32 {
                 match read_payload(&mut r, len) {
                     Ok(s) => {
                         inputs.insert(id, Arc::new(s));
-                        let _ = writeln!(w, "ok");
+                        say("ok\n");
                     },
                     Err(_) => return 3,
                 }
@@ -169,102 +257,77 @@ pub fn host_main() -> i32 {
                 let id: u64 = parts[1].parse().unwrap_or(0);
                 let entropy: u64 = parts[2].parse().unwrap_or(0);
                 if workers.contains_key(&id) {
-                    bad(&mut w, "worker exists");
+                    say("err worker exists\n");
                     continue;
                 }
                 // the scheduler fixes the entropy *before* the thread exists
                 seams::WORKER_ENTROPY.store(entropy, Ordering::SeqCst);
-                let (ctx, crx) = channel::<Cmd>();
-                let (rtx, rrx) = channel::<Reply>();
+                let slot = Arc::new(Slot::new());
+                let s2 = slot.clone();
                 let handle = std::thread::Builder::new()
                     .name(format!("worker-{id}"))
                     .stack_size(64 << 20)
-                    .spawn(move || worker_main(crx, rtx))
+                    .spawn(move || worker_main(s2))
                     .expect("spawn worker");
-                match rrx.recv() {
-                    Ok(Reply::Spawned(fp, cn)) => {
-                        let _ = writeln!(w, "ok {fp:016x} {cn}");
-                    },
-                    _ => {
-                        bad(&mut w, "worker died at spawn");
-                        continue;
-                    },
-                }
-                workers.insert(id, Worker { tx: ctx, rx: rrx, handle });
+                // the worker announces itself (`ok <keyfp> <canary>`) and parks
+                slot.wait_done();
+                workers.insert(id, Worker { slot, handle });
             },
             "K" if parts.len() == 2 => {
                 let id: u64 = parts[1].parse().unwrap_or(0);
                 if let Some(wk) = workers.remove(&id) {
-                    let _ = wk.tx.send(Cmd::Quit);
+                    wk.slot.call(Cmd::Quit);
                     let _ = wk.handle.join();
-                    let _ = writeln!(w, "ok");
+                    say("ok\n");
                 } else {
-                    bad(&mut w, "no such worker");
+                    say("err no such worker\n");
                 }
             },
             "X" if parts.len() == 3 => {
                 let id: u64 = parts[1].parse().unwrap_or(0);
                 let iid: u64 = parts[2].parse().unwrap_or(0);
                 let (Some(wk), Some(text)) = (workers.get(&id), inputs.get(&iid)) else {
-                    bad(&mut w, "no such worker or input");
+                    say("err no such worker or input\n");
                     continue;
                 };
-                let _ = wk.tx.send(Cmd::Expand(text.clone()));
-                match wk.rx.recv() {
-                    Ok(Reply::Expanded(fp, out)) => {
-                        let _ = writeln!(w, "R {fp:016x} {}", out.len());
-                        let _ = w.write_all(out.as_bytes());
-                        let _ = w.write_all(b"\n");
-                    },
-                    _ => bad(&mut w, "worker died"),
-                }
+                wk.slot.call(Cmd::Expand(text.clone()));
             },
             "C" if parts.len() == 3 => {
                 seams::SIM_CLOCK_S.store(parts[1].parse().unwrap_or(0), Ordering::SeqCst);
                 seams::SIM_CLOCK_NS.store(parts[2].parse().unwrap_or(0), Ordering::SeqCst);
-                let _ = writeln!(w, "ok");
+                say("ok\n");
             },
             "P" if parts.len() == 2 => {
                 seams::SIM_PID.store(parts[1].parse().unwrap_or(1), Ordering::SeqCst);
-                let _ = writeln!(w, "ok");
+                say("ok\n");
             },
             "F" if parts.len() == 4 => {
                 let id: u64 = parts[1].parse().unwrap_or(0);
                 let seed: u64 = parts[2].parse().unwrap_or(0);
                 let n: u64 = parts[3].parse().unwrap_or(0);
                 let Some(wk) = workers.get(&id) else {
-                    bad(&mut w, "no such worker");
+                    say("err no such worker\n");
                     continue;
                 };
-                let _ = wk.tx.send(Cmd::Frag(seed, n));
-                match wk.rx.recv() {
-                    Ok(Reply::Fragged(k)) => {
-                        let _ = writeln!(w, "ok {k}");
-                    },
-                    _ => bad(&mut w, "worker died"),
-                }
+                wk.slot.call(Cmd::Frag(seed, n));
             },
             "T" => {
-                let _ = writeln!(
-                    w,
-                    "stats {} {} {} {}",
+                say(&format!(
+                    "stats {} {} {} {}\n",
                     seams::GETRANDOM_CALLS_WORKER.load(Ordering::SeqCst),
                     seams::GETRANDOM_CALLS_OTHER.load(Ordering::SeqCst),
                     seams::CLOCK_READS_WORKER.load(Ordering::SeqCst),
                     seams::PID_READS_WORKER.load(Ordering::SeqCst)
-                );
+                ));
             },
             "Q" => {
                 for (_, wk) in std::mem::take(&mut workers) {
-                    let _ = wk.tx.send(Cmd::Quit);
+                    wk.slot.call(Cmd::Quit);
                     let _ = wk.handle.join();
                 }
                 return 0;
             },
-            _ => bad(&mut w, "unknown command"),
-        }
-        if w.flush().is_err() {
-            return 3;
+            _ => say("err unknown command\n"),
         }
     }
 }
